@@ -287,7 +287,7 @@ pub(super) fn affected<'a, 'b, F, O>(
 ) -> impl FnMut(TokenStream<'a>) -> IResult<'a, O> + 'b
 where
     F: InnerParser<'a, O> + 'b,
-    O: Parser + ToRange + AstInfoTraverser + Clone,
+    O: Parser + ToRange + AstInfoTraverser + Clone + PartialEq,
 {
     /// True if part of the tokens, that this node pointed to,
     /// were already consumed by previous parsers.
@@ -349,7 +349,18 @@ where
             let moved = relative_start != this.to_range().start
                 // nor if the parser is not positioned at the first token of the old node
                 || input.location_offset() != input.token_change.new_token_pos(this_range.start);
-            if moved || input.token_change.overlaps(&affected_range) {
+            // Where a node with syntax errors ends, was decided by the error recovery,
+            // which depends on all of the following tokens.
+            let recovered = input.token_change.deletion_range.start >= this_range.start && {
+                fn remove_parse_errors(info: &mut AstInfo) {
+                    info.errors
+                        .retain(|err| !matches!(err.1, ErrorMessage::ParseErrorMessage(_)));
+                }
+                let mut without_errors = this.clone();
+                without_errors.traverse_mut(remove_parse_errors);
+                without_errors != *this
+            };
+            if moved || recovered || input.token_change.overlaps(&affected_range) {
                 #[cfg(feature = "verif")]
                 crate::verif::count(&crate::verif::REPARSED);
                 match inner_parser.parse(input) {
